@@ -36,8 +36,12 @@ def sequences(spec):
     minl = spec.get("minl", 0)
     loops = spec.get("self_loops", True)
     upper = spec.get("pairs") == "upper"        # only i < j (enough for undirected link classes)
-    choices = [("new", c, i, j) for c in classes for i in range(nv) for j in range(nv)
-               if (loops or i != j) and (not upper or i < j)]
+    if isinstance(spec.get("pairs"), (list, tuple)):
+        # an explicit list of end pairs: "pumped" spaces with many links over few pairs
+        choices = [("new", c, i, j) for c in classes for (i, j) in spec["pairs"]]
+    else:
+        choices = [("new", c, i, j) for c in classes for i in range(nv) for j in range(nv)
+                   if (loops or i != j) and (not upper or i < j)]
     out = []
     for n in range(0, maxl + 1):
         for seq in itertools.product(choices, repeat=n):
